@@ -158,6 +158,18 @@ CLAIMED = {
         note='trusted: Coq kernel + vm_compute; hand-written model of MethodRegistry validated on generated histories only; dir() ordering of class members.',
         technique='Coq proof (strong induction on the nesting of merged registries; dict/last-match lemmas) + correspondence by vm_compute',
         design='6 C15'),
+    'C20': dict(
+        text='Theorems about the model of PjRpcMocker as a state machine, for operation/call histories of ANY length: every reachable state '
+             'satisfies "a patched endpoint has a patched method, a patched method has a patch, the tables are dicts" (failed replace/remove '
+             'change nothing); a call is answered by the patch at the front of its queue, which goes to the back unless it is a once-patch, '
+             'other methods untouched, the call recorded with its arguments; round robin in order of addition (after |a| calls the queue '
+             'a++b has become b++a and the answers were a\'s in order); the reply carries the request id; unpatched method -> -32601, '
+             'unpatched endpoint -> refused / passed through; batches are answered element-wise with the state threaded through. '
+             'Correspondence: the real mocker patched onto minimal sync/async backends, judged by an independent FIFO bookkeeping.',
+        note='trusted: Coq kernel + vm_compute; hand-written model of integrations/pytest.py validated on generated histories only; '
+             'unittest.mock (patch/autospec, MagicMock call records).',
+        technique='Coq proof (invariant preservation over operation histories; queue-rotation induction) + correspondence by vm_compute',
+        design='6 C20'),
 }
 
 PENDING_REASON = 'not claimed yet: model, theorems and correspondence for this property are not all in place in this commit (see DESIGN.md section 10)'
